@@ -331,8 +331,15 @@ impl TypeChecker {
 
     /// Ensure imported items are public in the dependency module.
     fn validate_import_visibility(&mut self, import: &ImportDecl, span: Span) {
-        let ImportKind::From { module, items } = &import.kind else {
-            return;
+        // `from m import a, b` names its items; Rust-style `import m::item` names one item as the last segment.
+        let (module, item_names): (ImportPath, Vec<Ident>) = match &import.kind {
+            ImportKind::From { module, items } => (module.clone(), items.iter().map(|i| i.name.clone()).collect()),
+            ImportKind::Module(path) if path.segments.len() > 1 => {
+                let mut module = path.clone();
+                let item = module.segments.pop().unwrap_or_default();
+                (module, vec![item])
+            }
+            _ => return,
         };
 
         // Only check modules that were pre-imported; skip std and unresolved ones.
@@ -356,11 +363,11 @@ impl TypeChecker {
             }
         }
 
-        for item in items {
-            if !exported_names.contains(&item.name) {
+        for item_name in &item_names {
+            if !exported_names.contains(item_name) {
                 let message = format!(
                     "Cannot import `{}` from `{}`: it is private or not exported. Mark it `pub` in that module.",
-                    item.name,
+                    item_name,
                     module.to_rust_path()
                 );
                 let hint = format!(
